@@ -63,6 +63,10 @@ MAPS = {
     "cubic": lambda v: v * v * v,
     "affine": lambda v: 3.0 * v - 7.0,
     "affine-small": lambda v: 0.5 * v + 2.0,
+    # large magnitudes (beyond 2**53, where x + 1 == x): still finite, exactly tied or far apart
+    "exp-steep": lambda v: math.exp(20.0 * v),
+    "affine-huge": lambda v: v * 2.0 ** 55 + 2.0 ** 60,
+    "affine-neg-huge": lambda v: v * 2.0 ** 55 - 2.0 ** 60,
 }
 
 
